@@ -1,7 +1,7 @@
 (* C18 - Geometry values compare, hash, parse and print consistently.
    Only statements closed by `exact`, each followed by Print Assumptions; Examples show non-vacuity. *)
 From Coq Require Import List ZArith QArith Qabs Bool.
-From PV Require Import model.Store model.GeomStore proofs.StoreFacts proofs.GeomStoreFacts.
+From PV Require Import model.Store model.GeomStore proofs.StoreFacts proofs.GeomStoreFacts proofs.GeomStoreValue.
 From PV Require Import lib.Sx lib.Str lib.Result model.Geometry model.GenGeom spec.SpecGeom.
 From PV Require Import proofs.GeomStr proofs.GeomEq proofs.GeomParse proofs.GeomPrint proofs.GeomLang proofs.GeomFacts.
 Import ListNotations.
@@ -241,6 +241,26 @@ Theorem C18_store_size_pct_value : forall v w h st a, dec_size st v = Some a ->
   end.
 Proof. exact size_pct_value. Qed.
 Print Assumptions C18_store_size_pct_value.
+
+(* ... and Layout level: on a well-formed store, the result of Layout.as_percentage_of / fit_to_screen decodes to the
+   value-level layout_as_pct / layout_fit of the decoded receiver (the functions C13's theorems are about); same exception
+   otherwise.  So the heap model refines the value model, and adds only allocation and sharing. *)
+Theorem C18_store_layout_pct_value : forall lv w h st l, wf st -> dec_layout st (VLoc lv) = Some l ->
+  match layout_pct_s (VLoc lv) w h st, layout_as_pct l w h with
+  | Ok (st', r), Ok l' => dec_layout st' r = Some l'
+  | Err e, Err e' => e = e'
+  | _, _ => False
+  end.
+Proof. exact layout_pct_value. Qed.
+Print Assumptions C18_store_layout_pct_value.
+Theorem C18_store_layout_fit_value : forall lv st l, wf st -> dec_layout st (VLoc lv) = Some l ->
+  match layout_fit_s (VLoc lv) st, layout_fit l with
+  | Ok (st', r), Ok l' => dec_layout st' r = Some l'
+  | Err e, Err e' => e = e'
+  | _, _ => False
+  end.
+Proof. exact layout_fit_value. Qed.
+Print Assumptions C18_store_layout_fit_value.
 
 (* which parts of the result are the receiver's own objects (1), other objects (0), None (2); paths: the layout, origin, x, y,
    extent, horizontal, vertical, padding, before, after, start, end, alignment.  The decoded result is the value-level one. *)
